@@ -45,6 +45,12 @@ NumExec == Cardinality({i \in 1..N : Trace[i].ev = "init"})
 Hard(tags) == {t \in tags : ~\E p \in {"refused-without-cause", "poll-reply-state", "melt-reply", "poll-reply"} :
                                  Len(t[2]) >= Len(p) /\ SubSeq(t[2], 1, Len(p)) = p}
 
+\* once all requests have returned: a payment the backend still has in flight belongs to a PENDING quote (C05 "while an
+\* outgoing payment may still succeed ... the quote is PENDING"; its inputs are then compared through the projection).
+\* An answer about an earlier attempt applied to a later one breaks exactly this.
+InflightLocked(post) == \A q \in DOMAIN post.lq :
+                          ("truth" \in DOMAIN post.lq[q] /\ post.lq[q].truth = "inflight") => post.lq[q].st = "PENDING"
+
 Dummy == InitState(<< >>, [maxbal |-> 0, maxmint |-> 0, maxmelt |-> 0])
 
 Init == l = 1 /\ S = Dummy /\ lin = {} /\ gaveUp = FALSE /\ ex = 0
@@ -61,7 +67,7 @@ SeqStep ==
           /\ S' = StateFromInit(e) /\ gaveUp' = FALSE /\ ex' = ex + 1
      ELSE /\ ~gaveUp
           /\ IF e.ev = "sync"
-             THEN ProjEq(S, e.post) /\ S' = Adopt(S, e.post)
+             THEN ProjEq(S, e.post) /\ InflightLocked(e.post) /\ S' = Adopt(S, e.post)
              ELSE LET j == Judge(S, e) IN
                   /\ j.tags = {}
                   /\ S' \in j.allowed
